@@ -147,7 +147,8 @@ UseArgs == IF Len(plan.use) = 1 THEN <<Text(plan.use[1])>>
 BitOut == [id |-> form.id \o " <" \o plan.aspell \o " " \o plan.how \o ">", mn |-> form.mn, args |-> UseArgs, pc |-> -1,
            exp |-> BV, units |-> IF BV = "units" THEN BUnits ELSE <<>>, ops |-> res, len |-> 1,
            pre |-> [k \in 1..Len(prog) |-> [label |-> prog[k].label, mn |-> DefMn(prog[k]), args |-> DefArgs(prog[k])]],
-           scen |-> plan.aspell \o " " \o plan.how, reg |-> ToString(res[1]) \o "." \o ToString(res[2])]
+           scen |-> plan.aspell \o " " \o plan.how, reg |-> ToString(res[1]) \o "." \o ToString(res[2]),
+           symkind |-> "bit / address symbol"]
 
 \* ---- checked by TLC ---------------------------------------------------------------------------------------------------
 \* every planned definition is executable, and the table means what the text says
